@@ -20,17 +20,28 @@ LEVEL = 'model_checking'
 ENGINE = 'E2 small-scope enumeration against reference predicates'
 RULE = ('all tables (id, x) with <= N rows, x over the mixed-type alphabet or missing (short row), through '
         'selecteq/ne/lt/le/gt/ge x every reference value, the four range selectors x every (min, max) pair, '
-        'selectin/notin x every container of <= 2 values (tuple/list/set), selectis/isnot, selectisinstance, '
+        'selectin/notin x every container of <= 2 values (tuple/list/set) and, on tables <= 2 (3) rows over '
+        'cells None/int/str of length 0-2/tuple/unhashable list and dict/missing, x every KIND of container '
+        '(tuple, list, set, frozenset, dict, str with substring semantics, range, an object with __contains__ '
+        'only), selectis/isnot, selectisinstance, '
         'selectnone/notnone/true/false (also over every falsy value class: False, 0, 0.0, empty str/bytes/tuple/'
         'list), select with field / row / expression predicates (missing None and a '
         'marker), biselect, facet, search/searchcomplement (whole row, one field, several fields), rowlenselect '
         '(row lengths 0..3), selectusingcontext, each with complement off and on; rowslice x every '
-        '(start, stop, step) over {None,0,1,2,5}, head/tail/skip n in 0..6 and default. states = distinct '
+        '(start, stop, step) over {None,0,1,2,5}, head/tail/skip n in 0..6 and default. PASS HISTORIES: for '
+        'every rectangular base table <= 2 (3) rows, ~110 field-based views (selecteq/ne/lt/ge, two range '
+        'selectors, selectin/notin, none/notnone/true/false/is, select(field, fn), both biselect halves, every '
+        'facet table; field by name and by index; complement off/on) are built ONCE over a live source and '
+        'every event sequence of length <= 3 (4) over {pass, insert leading column, swap first two columns, '
+        'drop / rename the first non-selected column, reverse rows} ending in a pass is executed; every pass '
+        'must equal the reference on the source as it is at that moment. states = distinct '
         '(table, selector, arguments, complement) points. A case (table, selector, arguments) is non-trivial '
         'when the selection and its complement are both non-empty. EXCLUDED (documentation gives no answer): '
         'selecteq/selectne where Python == and the C04 equivalence differ (list vs tuple cells); single-/multi-'
         'field search and multi-field selection on rows lacking that field; facet over unhashable cells; '
-        'negative islice arguments; selectcontains on non-container cells')
+        'negative islice arguments; selectcontains on non-container cells; selectin/notin where the Python '
+        'expression `v in value` itself raises TypeError (unhashable cell vs set/frozenset/dict, non-str cell vs '
+        'str container); passes while the selected field is absent from the current header')
 ASSUMPTIONS = ['cell alphabet limited to 8 (quick) / 11 (thorough) representatives; seed picks the concrete '
                'ints/strings', 'tables have <= 3 (quick) / <= 4 (thorough) rows for the value selectors, '
                '<= 7 rows for the positional ones', 'NaN excluded by the C04 statement']
@@ -122,6 +133,12 @@ def items(tier, seed):
     for n in range(0, 8):
         out.append(('slice', n, 0))
     out.append(('contains', 0, 0))
+    for n in range(0, 4 if tier == 'thorough' else 3):
+        for first in (range(len(IN2_SHAPES)) if n >= 2 else (None,)):
+            out.append(('in2', n, first))
+    nb = sum(4 ** k for k in range(0, (3 if tier == 'thorough' else 2) + 1))
+    for b in range(nb):
+        out.append(('history', b, 0))
     return out
 
 
@@ -350,6 +367,30 @@ def evaluate(case):
         stats[4] = _sel_mask(table, got)
         return fails, stats
 
+    if form == 'in2':
+        cont = build_container(case['ckind'], case['members'])
+        try:
+            for r in table[1:]:
+                R.cell(r, 1) in cont
+        except TypeError:
+            # the documented predicate `v in value` itself raises (unhashable cell vs set/dict, non-str
+            # cell vs str container): no documented answer
+            stats[4] = ('excluded', 'native-typeerror')
+            return fails, stats
+        got, s = _bundle(fails, table, case['field'], ('selectin', 'selectnotin'), (cont,))
+        addstats(s)
+        stats[2] += check_pairs(fails, table, got)
+        stats[4] = _sel_mask(table, got)
+        return fails, stats
+
+    if form == 'history':
+        hf, st = history_world(table, case['history'], [tuple(case['spec'])])
+        for spec, sig, exp, obs, msg in hf:
+            fails.add(sig, exp, obs, msg)
+        addstats(st)
+        stats[4] = ('history', len(fails))
+        return fails, stats
+
     if form == 'isinstance':
         got, s = _bundle(fails, table, case['field'], ('selectisinstance',), (TYPES[case['tname']],))
         addstats(s)
@@ -576,6 +617,8 @@ def _do(acc, case, counter):
     acc.counters['op:' + counter] += st[1]
     if st[3]:
         acc.counters['nontrivial:' + counter] += st[3]
+    if isinstance(st[4], tuple) and st[4] and st[4][0] == 'excluded':
+        acc.counters['excluded:' + counter + ':' + st[4][1]] += 1
     acc.outcome(st[4])
     for sig, exp, obs, msg in fails:
         c = dict(case)
@@ -606,6 +649,10 @@ def run_item(item, acc):
         return _run_context(a, acc)
     if fam == 'truth':
         return _run_truth(a, acc)
+    if fam == 'in2':
+        return _run_in2(a, b, acc)
+    if fam == 'history':
+        return _run_history(a, acc)
     if fam == 'slice':
         return _run_slice(a, acc)
     if fam == 'contains':
@@ -749,12 +796,260 @@ def _run_contains(acc):
                     _do(acc, {'form': 'contains', 'table': table, 'field': 'x', 'args': [v]}, 'selectcontains')
 
 
+# ---------------------------------------------------------------------------------------------
+# selectin / selectnotin over every KIND of container the documented predicate `v in value` accepts
+# ---------------------------------------------------------------------------------------------
+
+class OnlyContains(object):
+    """A container that offers nothing but __contains__ (no __iter__, no __len__)."""
+
+    def __init__(self, members):
+        self._m = list(members)
+
+    def __contains__(self, v):
+        return any(v is x or v == x for x in self._m)
+
+    def __repr__(self):
+        return 'OnlyContains(%r)' % (self._m,)
+
+
+def build_container(kind, members):
+    if kind == 'list':
+        return list(members)
+    if kind == 'tuple':
+        return tuple(members)
+    if kind == 'set':
+        return set(members)
+    if kind == 'frozenset':
+        return frozenset(members)
+    if kind == 'dict':
+        return dict((m, i) for i, m in enumerate(members))
+    if kind == 'str':
+        return ''.join(members)          # substring semantics
+    if kind == 'range':
+        return range(*members)
+    if kind == 'custom':
+        return OnlyContains(members)
+    raise ValueError(kind)
+
+
+IN2_SHAPES = ('none', 'int', 'str0', 'str1', 'str2', 'str1b', 'tuple', 'list', 'dict', 'short')
+
+
+def in2_cell(shape):
+    i1, s1, s2 = _A[1], _A[4], _A[5]
+    return {'none': None, 'int': i1, 'str0': '', 'str1': s1, 'str2': s1 + s2, 'str1b': s2, 'tuple': (i1,),
+            'list': [i1], 'dict': {'k': i1}}[shape]
+
+
+def in2_containers():
+    i1, i2, s1, s2 = _A[1], _A[2], _A[4], _A[5]
+    members = [None, i1, s1, s1 + s2, (i1,)]
+    subsets = [()]
+    subsets += [(m,) for m in members]
+    subsets += list(itertools.combinations(members, 2))
+    out = []
+    for kind in ('tuple', 'list', 'set', 'frozenset', 'dict', 'custom'):
+        for sub in subsets:
+            out.append((kind, list(sub)))
+    for text in ('', s1, s1 + s2, s2 + s1, s2 + s1 + s2):
+        out.append(('str', [text]))
+    out.append(('range', [i1, i2 + 1]))
+    out.append(('range', [0]))
+    return out
+
+
+def _run_in2(n, first, acc):
+    conts = in2_containers()
+    for combo in itertools.product(range(len(IN2_SHAPES)), repeat=n):
+        if first is not None and combo[0] != first:
+            continue
+        table = [HDR] + [(i,) if IN2_SHAPES[c] == 'short' else (i, in2_cell(IN2_SHAPES[c]))
+                         for i, c in enumerate(combo)]
+        for kind, members in conts:
+            _do(acc, {'form': 'in2', 'table': table, 'field': 'x', 'ckind': kind, 'members': members},
+                'in-container-kinds')
+    acc.sample({'family': 'in2', 'rows': n}, 1)
+
+
+# ---------------------------------------------------------------------------------------------
+# pass histories: the same view objects are iterated again after the SOURCE was edited (column
+# inserted / swapped / dropped / renamed, rows reversed); every pass must equal the reference
+# evaluated on the source as it is NOW (views are lazy, nothing may be remembered from a pass)
+# ---------------------------------------------------------------------------------------------
+
+EDITS = ('ins', 'swap', 'drop', 'ren', 'rev')
+
+
+def apply_edit(src, edit, k):
+    """Edit the list `src` in place; False when the edit is not applicable."""
+    hdr = tuple(src[0])
+    rows = [tuple(r) for r in src[1:]]
+    if edit == 'ins':
+        new = [('n%d' % k,) + hdr] + [('n%d_%d' % (k, i),) + r for i, r in enumerate(rows)]
+    elif edit == 'swap':
+        if len(hdr) < 2:
+            return False
+        new = [(r[1], r[0]) + r[2:] for r in [hdr] + rows]
+    elif edit in ('drop', 'ren'):
+        js = [j for j, h in enumerate(hdr) if h != 'x']
+        if not js:
+            return False
+        j = js[0]
+        if edit == 'drop':
+            new = [r[:j] + r[j + 1:] for r in [hdr] + rows]
+        else:
+            new = [hdr[:j] + (hdr[j] + '_',) + hdr[j + 1:]] + rows
+    elif edit == 'rev':
+        if len(rows) < 2:
+            return False
+        new = [hdr] + rows[::-1]
+    else:
+        raise ValueError(edit)
+    src[:] = new
+    return True
+
+
+def history_specs():
+    i1, s1 = _A[1], _A[4]
+    specs = []
+    for field in ('x', 1):
+        for c in (False, True):
+            for v in (None, i1, s1):
+                for op in ('selecteq', 'selectne', 'selectlt', 'selectge'):
+                    specs.append((op, field, (v,), c))
+            specs.append(('selectrangeopen', field, (None, i1), c))
+            specs.append(('selectrangeopenleft', field, (i1, s1), c))
+            for op in ('selectin', 'selectnotin'):
+                specs.append((op, field, ((i1, s1),), c))
+                specs.append((op, field, ((None,),), c))
+            for op in ('selectnone', 'selectnotnone', 'selecttrue', 'selectfalse'):
+                specs.append((op, field, (), c))
+            specs.append(('selectis', field, (None,), c))
+            for pname in ('is_none', 'identity', 'is_str'):
+                specs.append(('select:' + pname, field, (), c))
+            specs.append(('biselect:is_str', field, (), c))      # c: which half
+        specs.append(('facet', field, (), False))
+    return specs
+
+
+def _build_views(src, spec):
+    """list of (key-or-None, view) for one spec over the live source."""
+    op, field, args, c = spec
+    if op == 'facet':
+        return list(etl.facet(src, field).items())
+    if op.startswith('select:'):
+        p = FIELD_PREDS[op[7:]]
+        return [(None, etl.select(src, field, p, complement=True) if c else etl.select(src, field, p))]
+    if op.startswith('biselect:'):
+        return [(None, etl.biselect(src, field, FIELD_PREDS[op[9:]])[1 if c else 0])]
+    f = getattr(etl, op)
+    return [(None, f(src, field, *args, complement=True) if c else f(src, field, *args))]
+
+
+def _expected(current, fi, spec, key):
+    op, field, args, c = spec
+    if op == 'facet':
+        return R.fieldselect(current, fi, 'selecteq', (key,), False)
+    if op.startswith('select:') or op.startswith('biselect:'):
+        p = FIELD_PREDS[op.split(':')[1]]
+        return R.filt(current, lambda r: p(R.cell(r, fi)), c)
+    return R.fieldselect(current, fi, op, args, c)
+
+
+def history_world(base, history, specs):
+    """Run one history (events 'P' = pass over every view, or an edit name) on views built ONCE over a
+    live source.  Returns ([(spec, sig, expected, observed, msg)], (points, evals, comparisons, nontrivial))."""
+    src = [tuple(r) for r in base]
+    out = []
+    npts = nev = ncmp = nontriv = 0
+    views = []
+    for spec in specs:
+        try:
+            views.append((spec, _build_views(src, spec)))
+        except Exception as e:
+            out.append((spec, '%s | raises %s' % (spec[0], type(e).__name__), None, type(e).__name__,
+                        'constructing %r raised %s' % (spec, e)))
+    edited = 0
+    last_fi = {}
+    moved = set()
+    for ev in history:
+        if ev != 'P':
+            edited += 1
+            if not apply_edit(src, ev, edited):
+                raise ValueError('inapplicable edit %s' % ev)
+            continue
+        current = [tuple(r) for r in src]
+        for si, (spec, vs) in enumerate(views):
+            try:
+                fi = ref.resolve(current[0], spec[1])[0]
+            except LookupError:
+                continue       # the field does not exist in the current header: an error is documented
+            if si in last_fi and last_fi[si] != fi and si not in moved:
+                moved.add(si)
+                nontriv += 1
+            last_fi[si] = fi
+            label = spec[0] + (' re-iterated after a source edit' if edited else '')
+            for key, view in vs:
+                res = run(lambda: view)
+                exp = _expected(current, fi, spec, key)
+                npts += 1
+                nev += 1
+                ncmp += 1
+                f = Fails()
+                compare(f, label, current, res, exp,
+                        '%s(t, %r%s%s)%s after history %r' % (spec[0], spec[1], ''.join(', %r' % (a,) for a in spec[2]),
+                                                        ', complement/second half' if spec[3] else '',
+                                                        '' if key is None else '[%r]' % (key,), list(history)))
+                for sig, e, o, m in f:
+                    out.append((spec, sig, e, o, m))
+    return out, (npts, nev, ncmp, nontriv)
+
+
+def histories(maxlen):
+    """Every event sequence of length <= maxlen over {P} + EDITS that ends with a pass; inapplicable
+    edits are filtered by the caller."""
+    evs = ('P',) + EDITS
+    for L in range(1, maxlen + 1):
+        for h in itertools.product(evs, repeat=L - 1):
+            yield h + ('P',)
+
+
+def _run_history(b, acc):
+    cells = [None, _A[1], _A[2], _A[4]]
+    nmax = 3 if _TIER == 'thorough' else 2
+    bases = []
+    for n in range(nmax + 1):
+        for combo in itertools.product(cells, repeat=n):
+            bases.append([HDR] + [(i, v) for i, v in enumerate(combo)])
+    base = bases[b]
+    specs = history_specs()
+    for h in histories(4 if _TIER == 'thorough' else 3):
+        probe = [tuple(r) for r in base]
+        if not all(apply_edit(probe, ev, 1) for ev in h if ev != 'P'):
+            acc.counters['excluded:history:inapplicable-edit'] += 1
+            continue
+        hf, st = history_world(base, h, specs)
+        acc.states += st[0]
+        acc.transitions += st[1]
+        acc.evals += st[2]
+        acc.nontrivial += st[3]
+        acc.counters['op:history'] += st[1]
+        if st[3]:
+            acc.counters['nontrivial:history'] += st[3]
+        acc.outcome(('history', h, len(hf)))
+        for spec, sig, exp, obs, msg in hf:
+            acc.violation(sig, {'form': 'history', 'table': base, 'history': list(h), 'spec': list(spec),
+                                '_sig': sig}, exp, obs, msg)
+    acc.sample({'family': 'history', 'base': base}, 1)
+
+
 def vacuity(cov, tier):
     probs = []
     c = cov['per_case_counters']
     for k in ('cmp', 'range', 'unary', 'in', 'is', 'isinstance', 'select-field', 'select-row', 'facet',
               'search', 'rowlenselect', 'selectusingcontext', 'rowslice', 'head', 'tail', 'skip',
-              'unary-truth', 'select-truth'):
+              'unary-truth', 'select-truth', 'in-container-kinds', 'history'):
         if not c.get('op:' + k):
             probs.append('no evaluation of ' + k)
         elif not c.get('nontrivial:' + k):
